@@ -1,0 +1,539 @@
+//! `streams`: the stream layer (`StreamsState` driven through `Streams`/`SendStream`/`RecvStream`
+//! and the frame-level entry points), outside a `Connection`.
+//!
+//! Every response is `<result> | <accounting and every instantiated stream half> | <pending frames>`.
+//! Where `Connection` reacts to a `ShouldTransmit` by setting a flag in the data space's `pending`
+//! retransmits, the executor does the same (marked "glue").
+use bytes::Bytes;
+
+use super::{num, Comp, BAD};
+use crate::connection::spaces::{Retransmits, ThinRetransmits};
+use crate::connection::stats::FrameStats;
+use crate::connection::streams::{
+    ReadError, ReadableError, RecvStream, SendStream, StreamEvent, Streams, StreamsState,
+};
+use crate::connection::State as ConnState;
+use crate::frame::{self, Frame};
+use crate::transport_parameters::TransportParameters;
+use crate::{Dir, Side, StreamId, TransportError, VarInt};
+
+/// Largest number of initially permitted remote streams / concurrency the executor accepts
+/// (`StreamsState::new` materialises one map entry per permitted stream).
+const MAX_REMOTE: u64 = 1024;
+/// Largest application write / STREAM frame payload (data is materialised)
+const MAX_LEN: u64 = 1 << 17;
+/// Packet space offered to `write_control_frames` ("unbounded" for the handful of frames queued)
+const CTRL_SPACE: usize = 1 << 24;
+
+pub(super) struct StreamsC {
+    st: StreamsState,
+    pending: Retransmits,
+    conn: ConnState,
+}
+
+impl StreamsC {
+    pub(super) fn new() -> Self {
+        Self {
+            st: StreamsState::new(
+                Side::Client,
+                0u32.into(),
+                0u32.into(),
+                0,
+                0u32.into(),
+                0u32.into(),
+            ),
+            pending: Retransmits::default(),
+            conn: ConnState::Established,
+        }
+    }
+
+    fn view(&self) -> String {
+        let p = &self.pending;
+        let rst: Vec<String> = p
+            .reset_stream
+            .iter()
+            .map(|(i, c)| format!("{}.{}", i.0, c.into_inner()))
+            .collect();
+        let stop: Vec<String> = p
+            .stop_sending
+            .iter()
+            .map(|f| format!("{}.{}", f.id.0, f.error_code.into_inner()))
+            .collect();
+        let mut msd: Vec<u64> = p.max_stream_data.iter().map(|i| i.0).collect();
+        msd.sort();
+        let msd: Vec<String> = msd.iter().map(|i| i.to_string()).collect();
+        format!(
+            "{} | md={} msi={},{} sbl={},{} rst=[{}] stop=[{}] msd=[{}] closed={}",
+            self.st.verif_view(),
+            p.max_data as u8,
+            p.max_stream_id[0] as u8,
+            p.max_stream_id[1] as u8,
+            p.streams_blocked[0] as u8,
+            p.streams_blocked[1] as u8,
+            rst.join(","),
+            stop.join(","),
+            msd.join(","),
+            matches!(self.conn, ConnState::Draining) as u8
+        )
+    }
+}
+
+fn vi(s: &str) -> Option<VarInt> {
+    VarInt::from_u64(num(s)?).ok()
+}
+
+fn dir(s: &str) -> Option<Dir> {
+    match s {
+        "bi" => Some(Dir::Bi),
+        "uni" => Some(Dir::Uni),
+        _ => None,
+    }
+}
+
+fn sid(s: &str) -> Option<StreamId> {
+    Some(StreamId::from(vi(s)?))
+}
+
+fn flag(s: &str) -> Option<bool> {
+    match s {
+        "0" => Some(false),
+        "1" => Some(true),
+        _ => None,
+    }
+}
+
+fn terr(e: TransportError) -> String {
+    let reason = e.reason.replace(' ', "_");
+    if reason.is_empty() {
+        format!("err {:?}", e.code)
+    } else {
+        format!("err {:?} {}", e.code, reason)
+    }
+}
+
+fn event(e: StreamEvent) -> String {
+    match e {
+        StreamEvent::Opened { dir } => format!("Opened {}", dir as u8),
+        StreamEvent::Readable { id } => format!("Readable {}", id.0),
+        StreamEvent::Writable { id } => format!("Writable {}", id.0),
+        StreamEvent::Finished { id } => format!("Finished {}", id.0),
+        StreamEvent::Stopped { id, error_code } => {
+            format!("Stopped {} {}", id.0, error_code.into_inner())
+        }
+        StreamEvent::Available { dir } => format!("Available {}", dir as u8),
+    }
+}
+
+impl Comp for StreamsC {
+    fn exec(&mut self, w: &[&str]) -> String {
+        let r = match self.exec1(w) {
+            Some(r) => r,
+            None => return BAD.into(),
+        };
+        format!("{} | {}", r, self.view())
+    }
+}
+
+impl StreamsC {
+    fn exec1(&mut self, w: &[&str]) -> Option<String> {
+        Some(match w {
+            ["new", side, mru, mrb, sw, rw, srw] => {
+                let side = match *side {
+                    "c" => Side::Client,
+                    "s" => Side::Server,
+                    _ => return None,
+                };
+                let (mru, mrb, sw, rw, srw) = (vi(mru)?, vi(mrb)?, num(sw)?, vi(rw)?, vi(srw)?);
+                if mru.into_inner() > MAX_REMOTE || mrb.into_inner() > MAX_REMOTE {
+                    return None;
+                }
+                self.st = StreamsState::new(side, mru, mrb, sw, rw, srw);
+                self.pending = Retransmits::default();
+                self.conn = ConnState::Established;
+                "ok".into()
+            }
+            ["params", uni, bidi_local, bidi_remote, ms_bidi, ms_uni, md] => {
+                let params = TransportParameters {
+                    initial_max_stream_data_uni: vi(uni)?,
+                    initial_max_stream_data_bidi_local: vi(bidi_local)?,
+                    initial_max_stream_data_bidi_remote: vi(bidi_remote)?,
+                    initial_max_streams_bidi: vi(ms_bidi)?,
+                    initial_max_streams_uni: vi(ms_uni)?,
+                    initial_max_data: vi(md)?,
+                    ..TransportParameters::default()
+                };
+                self.st.set_params(&params);
+                "ok".into()
+            }
+            ["conn", c] => {
+                self.conn = match *c {
+                    "open" => ConnState::Established,
+                    "closed" => ConnState::Draining,
+                    _ => return None,
+                };
+                "ok".into()
+            }
+            ["open", d] => {
+                let d = dir(d)?;
+                let mut s = Streams {
+                    state: &mut self.st,
+                    conn_state: &self.conn,
+                };
+                match s.open(d) {
+                    Some(id) => format!("ok {}", id.0),
+                    None => "none".into(),
+                }
+            }
+            ["accept", d] => {
+                let d = dir(d)?;
+                let mut s = Streams {
+                    state: &mut self.st,
+                    conn_state: &self.conn,
+                };
+                match s.accept(d) {
+                    Some(id) => format!("ok {}", id.0),
+                    None => "none".into(),
+                }
+            }
+            ["write", id, n] => {
+                let (id, n) = (sid(id)?, num(n)?);
+                if n > MAX_LEN {
+                    return None;
+                }
+                let data = vec![0u8; n as usize];
+                let mut s = SendStream {
+                    id,
+                    state: &mut self.st,
+                    pending: &mut self.pending,
+                    conn_state: &self.conn,
+                };
+                match s.write(&data) {
+                    Ok(k) => format!("ok {k}"),
+                    Err(crate::WriteError::Blocked) => "err Blocked".into(),
+                    Err(crate::WriteError::Stopped(c)) => format!("err Stopped {}", c.into_inner()),
+                    Err(crate::WriteError::ClosedStream) => "err ClosedStream".into(),
+                }
+            }
+            ["finish", id] => {
+                let id = sid(id)?;
+                let mut s = SendStream {
+                    id,
+                    state: &mut self.st,
+                    pending: &mut self.pending,
+                    conn_state: &self.conn,
+                };
+                match s.finish() {
+                    Ok(()) => "ok".into(),
+                    Err(crate::FinishError::Stopped(c)) => {
+                        format!("err Stopped {}", c.into_inner())
+                    }
+                    Err(crate::FinishError::ClosedStream) => "err ClosedStream".into(),
+                }
+            }
+            ["reset", id, code] => {
+                let (id, code) = (sid(id)?, vi(code)?);
+                let mut s = SendStream {
+                    id,
+                    state: &mut self.st,
+                    pending: &mut self.pending,
+                    conn_state: &self.conn,
+                };
+                match s.reset(code) {
+                    Ok(()) => "ok".into(),
+                    Err(_) => "err ClosedStream".into(),
+                }
+            }
+            ["stopped", id] => {
+                let id = sid(id)?;
+                let s = SendStream {
+                    id,
+                    state: &mut self.st,
+                    pending: &mut self.pending,
+                    conn_state: &self.conn,
+                };
+                match s.stopped() {
+                    Ok(None) => "ok -".into(),
+                    Ok(Some(c)) => format!("ok {}", c.into_inner()),
+                    Err(_) => "err ClosedStream".into(),
+                }
+            }
+            ["prio", id, p] => {
+                let id = sid(id)?;
+                let p: i32 = p.parse().ok()?;
+                let mut s = SendStream {
+                    id,
+                    state: &mut self.st,
+                    pending: &mut self.pending,
+                    conn_state: &self.conn,
+                };
+                match s.set_priority(p) {
+                    Ok(()) => "ok".into(),
+                    Err(_) => "err ClosedStream".into(),
+                }
+            }
+            ["stream", id, off, len, fin] => {
+                let (id, off, len, fin) = (sid(id)?, vi(off)?, num(len)?, flag(fin)?);
+                if len > MAX_LEN {
+                    return None;
+                }
+                let f = frame::Stream {
+                    id,
+                    offset: off.into_inner(),
+                    fin,
+                    data: Bytes::from(vec![0u8; len as usize]),
+                };
+                match self.st.received(f, len as usize) {
+                    Ok(t) => {
+                        if t.should_transmit() {
+                            self.pending.max_data = true; // glue: Connection::process_payload
+                        }
+                        format!("ok {}", t.should_transmit() as u8)
+                    }
+                    Err(e) => terr(e),
+                }
+            }
+            ["rst", id, code, fo] => {
+                let f = frame::ResetStream {
+                    id: sid(id)?,
+                    error_code: vi(code)?,
+                    final_offset: vi(fo)?,
+                };
+                match self.st.received_reset(f) {
+                    Ok(t) => {
+                        if t.should_transmit() {
+                            self.pending.max_data = true; // glue: Connection::process_payload
+                        }
+                        format!("ok {}", t.should_transmit() as u8)
+                    }
+                    Err(e) => terr(e),
+                }
+            }
+            ["stopsend", id, code] => {
+                self.st.received_stop_sending(sid(id)?, vi(code)?);
+                "ok".into()
+            }
+            ["maxdata", n] => {
+                self.st.received_max_data(vi(n)?);
+                "ok".into()
+            }
+            ["maxsd", id, n] => match self
+                .st
+                .received_max_stream_data(sid(id)?, vi(n)?.into_inner())
+            {
+                Ok(()) => "ok".into(),
+                Err(e) => terr(e),
+            },
+            ["maxstreams", d, n] => match self.st.received_max_streams(dir(d)?, vi(n)?.into_inner())
+            {
+                Ok(()) => "ok".into(),
+                Err(e) => terr(e),
+            },
+            ["ack", id, a, b, fin] => {
+                let (id, a, b, fin) = (sid(id)?, vi(a)?, vi(b)?, flag(fin)?);
+                if a > b {
+                    return None;
+                }
+                self.st.received_ack_of(frame::StreamMeta {
+                    id,
+                    offsets: a.into_inner()..b.into_inner(),
+                    fin,
+                });
+                "ok".into()
+            }
+            ["lost", id, a, b, fin] => {
+                let (id, a, b, fin) = (sid(id)?, vi(a)?, vi(b)?, flag(fin)?);
+                if a > b {
+                    return None;
+                }
+                self.st.retransmit(frame::StreamMeta {
+                    id,
+                    offsets: a.into_inner()..b.into_inner(),
+                    fin,
+                });
+                "ok".into()
+            }
+            ["rstack", id] => {
+                self.st.reset_acked(sid(id)?);
+                "ok".into()
+            }
+            ["read", id, budget] => {
+                let (id, budget) = (sid(id)?, num(budget)?);
+                let mut s = RecvStream {
+                    id,
+                    state: &mut self.st,
+                    pending: &mut self.pending,
+                };
+                let res = s.read(true);
+                match res {
+                    Err(ReadableError::ClosedStream) => "err ClosedStream".into(),
+                    Err(ReadableError::IllegalOrderedRead) => "err IllegalOrderedRead".into(),
+                    Ok(mut chunks) => {
+                        let mut remaining = budget;
+                        let mut total = 0u64;
+                        let mut end = "more".to_string();
+                        while remaining > 0 {
+                            let cap = remaining.min(usize::MAX as u64) as usize;
+                            match chunks.next(cap) {
+                                Ok(Some(c)) => {
+                                    total += c.bytes.len() as u64;
+                                    remaining -= c.bytes.len() as u64;
+                                }
+                                Ok(None) => {
+                                    end = "fin".into();
+                                    break;
+                                }
+                                Err(ReadError::Blocked) => {
+                                    end = "blocked".into();
+                                    break;
+                                }
+                                Err(ReadError::Reset(c)) => {
+                                    end = format!("reset:{}", c.into_inner());
+                                    break;
+                                }
+                            }
+                        }
+                        let t = chunks.finalize();
+                        format!("ok {total} {end} {}", t.should_transmit() as u8)
+                    }
+                }
+            }
+            ["stop", id, code] => {
+                let (id, code) = (sid(id)?, vi(code)?);
+                let mut s = RecvStream {
+                    id,
+                    state: &mut self.st,
+                    pending: &mut self.pending,
+                };
+                match s.stop(code) {
+                    Ok(()) => "ok".into(),
+                    Err(_) => "err ClosedStream".into(),
+                }
+            }
+            ["rreset", id] => {
+                let id = sid(id)?;
+                let mut s = RecvStream {
+                    id,
+                    state: &mut self.st,
+                    pending: &mut self.pending,
+                };
+                match s.received_reset() {
+                    Ok(None) => "ok -".into(),
+                    Ok(Some(c)) => format!("ok {}", c.into_inner()),
+                    Err(_) => "err ClosedStream".into(),
+                }
+            }
+            ["poll"] => match self.st.poll() {
+                Some(e) => event(e),
+                None => "none".into(),
+            },
+            ["transmit", max, fair] => {
+                let (max, fair) = (num(max)?, flag(fair)?);
+                if max > (1 << 20) {
+                    return None;
+                }
+                let mut buf = Vec::new();
+                let metas = self.st.write_stream_frames(&mut buf, max as usize, fair);
+                let mut o = format!("ok {}", buf.len());
+                for m in metas.iter() {
+                    o += &format!(
+                        " {}:{}:{}:{}",
+                        m.id.0, m.offsets.start, m.offsets.end, m.fin as u8
+                    );
+                }
+                o
+            }
+            ["cansend"] => format!("{}", self.st.can_send_stream_data()),
+            ["canflow", id] => format!("{}", self.st.can_send_flow_control(sid(id)?)),
+            ["ctrl"] => {
+                let mut buf = Vec::new();
+                let mut sent = ThinRetransmits::default();
+                let mut stats = FrameStats::default();
+                self.st.write_control_frames(
+                    &mut buf,
+                    &mut self.pending,
+                    &mut sent,
+                    &mut stats,
+                    CTRL_SPACE,
+                );
+                let mut o = "ok".to_string();
+                if !buf.is_empty() {
+                    let mut msd: Vec<(u64, u64)> = Vec::new();
+                    let mut tail = String::new();
+                    for f in frame::Iter::new(Bytes::from(buf)).ok()? {
+                        match f.ok()? {
+                            Frame::ResetStream(r) => {
+                                o += &format!(
+                                    " RST.{}.{}.{}",
+                                    r.id.0,
+                                    r.error_code.into_inner(),
+                                    r.final_offset.into_inner()
+                                )
+                            }
+                            Frame::StopSending(s) => {
+                                o += &format!(" STOP.{}.{}", s.id.0, s.error_code.into_inner())
+                            }
+                            Frame::MaxData(v) => o += &format!(" MD.{}", v.into_inner()),
+                            Frame::MaxStreamData { id, offset } => msd.push((id.0, offset)),
+                            Frame::MaxStreams { dir, count } => {
+                                tail += &format!(" MS.{}.{}", dir as u8, count)
+                            }
+                            Frame::StreamsBlocked { dir, limit } => {
+                                tail += &format!(" SB.{}.{}", dir as u8, limit)
+                            }
+                            _ => return None,
+                        }
+                    }
+                    msd.sort();
+                    for (i, v) in msd {
+                        o += &format!(" MSD.{i}.{v}");
+                    }
+                    o += &tail;
+                }
+                o
+            }
+            ["qmsi"] => format!("{}", self.st.queue_max_stream_id(&mut self.pending)),
+            ["pend", "md"] => {
+                self.pending.max_data = true; // glue: lost MAX_DATA is queued again
+                "ok".into()
+            }
+            ["pend", "msd", id] => {
+                self.pending.max_stream_data.insert(sid(id)?); // glue: lost MAX_STREAM_DATA
+                "ok".into()
+            }
+            ["pend", "msi", d] => {
+                self.pending.max_stream_id[dir(d)? as usize] = true; // glue: lost MAX_STREAMS
+                "ok".into()
+            }
+            ["sendwin", n] => {
+                self.st.set_send_window(num(n)?);
+                "ok".into()
+            }
+            ["recvwin", n] => {
+                let expanded = self.st.set_receive_window(vi(n)?);
+                if expanded {
+                    self.pending.max_data = true; // glue: Connection::set_receive_window
+                }
+                format!("ok {}", expanded as u8)
+            }
+            ["maxconc", d, n] => {
+                let (d, n) = (dir(d)?, vi(n)?);
+                if n.into_inner() > MAX_REMOTE {
+                    return None;
+                }
+                self.st.set_max_concurrent(d, n);
+                "ok".into()
+            }
+            ["rejected"] => {
+                self.st.zero_rtt_rejected();
+                self.pending = Retransmits::default(); // glue: "Discard already-queued frames"
+                "ok".into()
+            }
+            ["rtx0"] => {
+                self.st.retransmit_all_for_0rtt();
+                "ok".into()
+            }
+            ["view"] => "ok".into(),
+            _ => return None,
+        })
+    }
+}
